@@ -29,12 +29,12 @@ type Op struct {
 // inside a synctest bubble: the bubble clock starts at a fixed instant, so the node
 // heights are a pure function of (H, history).
 type Scenario struct {
-	Order string `json:"order"` // int | rev | str
-	U     int    `json:"u"`     // key universe size
-	Ops   []Op   `json:"ops"`
-	ShowMask int `json:"showMask,omitempty"` // 0: the printed form is read after every step; else only after step i when bit i%30 is set
-	Ops2  []Op   `json:"ops2,omitempty"` // history of a SECOND list living in the same process, executed step-interleaved with the first
-	H     []int  `json:"h"`
+	Order    string `json:"order"` // int | rev | str
+	U        int    `json:"u"`     // key universe size
+	Ops      []Op   `json:"ops"`
+	ShowMask int    `json:"showMask,omitempty"` // 0: the printed form is read after every step; else only after step i when bit i%30 is set
+	Ops2     []Op   `json:"ops2,omitempty"`     // history of a SECOND list living in the same process, executed step-interleaved with the first
+	H        []int  `json:"h"`
 }
 
 var strKeys = []string{"a", "100%", "aa", "%v", "ab", "b", "a%sb", "ba", "c", "é", "z", "A", "%d%%", "Z", "0", "zz", "\xff", "日"}
